@@ -107,9 +107,10 @@ def run(ctx):
     rep.guarded("invariants", "anstyle_parse::Parser", lambda: rule_invariants(facts, rep))
     rep.guarded("unsafe", "unsafe sites", lambda: rule_unsafe(facts, rep))
     rep.guarded("str-slice", "untrusted str slicing", lambda: rule_str_slice(facts, rep))
+    rep.guarded("recursion", "call graph", lambda: rule_recursion(facts, rep))
     rep.guarded("utf8", "from_utf8_unchecked", lambda: rule_utf8(facts, rep))
     rep.guarded("positive", "verif_harness::positive", lambda: rule_positive(facts, rep))
-    for r, n in (("panic-site", 120), ("coverage", 60), ("allowlist", 1), ("reset", 9), ("guards", 12), ("params", 8), ("invariants", 6), ("unsafe", 8), ("utf8", 5), ("positive", 3)):
+    for r, n in (("panic-site", 120), ("coverage", 60), ("allowlist", 1), ("reset", 9), ("guards", 12), ("params", 8), ("invariants", 6), ("unsafe", 8), ("recursion", 3), ("utf8", 5), ("positive", 3)):
         rep.floor(r, n)
 
 
@@ -810,3 +811,67 @@ def rule_positive(facts, rep):
         else:
             n_user = len([n for n in hir.walk(b["hir"]) if n.get("k") == "block" and n.get("unsafe") == "UserProvided"])
             rep.check(n_user == 1, "positive", b["path"], "unsafe-block-is-recognised", f"{n_user}", loc(b))
+
+
+# Cycles of the call graph that exist on the reference tree, each with the reason its depth is bounded independently of the input.
+RECURSION_AUDITED = {
+    ("anstyle_roff::add_color_to_roff",):
+        "re-enters once for an Ansi256 colour with xterm_to_ansi_or_rgb(c), which yields Ansi or Rgb, never Ansi256: depth <= 2",
+    ("anstream::auto::AutoStream::<S>::auto", "anstream::auto::AutoStream::<S>::new"):
+        "new(raw, Auto) -> auto(raw) -> new(raw, choice(raw)); choice() never returns Auto (C09 chain rule): depth <= 3",
+}
+
+
+def rule_recursion(facts, rep):
+    """No recursion whose depth the input decides: the call graph of the analysed crates (resolved callees, closures attributed to
+    their owner) has only the audited cycles. A new cycle — e.g. a parser calling itself on the rest of a word — is reported: stack
+    exhaustion is an abort, not an error value."""
+    graph = {}
+    for crate in CRATES:
+        for b in facts.bodies(crate):
+            if "hir" not in b or is_test(b["path"]):
+                continue
+            owner = b["path"] if b.get("kind") != "Closure" else (b.get("parent") or b["path"])
+            for n in hir.walk(b.get("hir_raw") or b["hir"]):
+                if n.get("k") == "call" and not n.get("ctor"):
+                    graph.setdefault(owner, set()).add(n.get("resolved") or n.get("callee") or "")
+                if n.get("k") == "def" and n.get("dk") in ("Fn", "AssocFn"):
+                    graph.setdefault(owner, set()).add(n.get("path") or "")        # a function passed by name
+    nodes = set(graph)
+    index, low, stack, on, comps, ctr = {}, {}, [], set(), [], [0]
+    import sys
+    sys.setrecursionlimit(max(sys.getrecursionlimit(), 20000))
+
+    def sc(v):
+        index[v] = low[v] = ctr[0]
+        ctr[0] += 1
+        stack.append(v)
+        on.add(v)
+        for w in graph.get(v, ()):
+            if w not in nodes:
+                continue
+            if w not in index:
+                sc(w)
+                low[v] = min(low[v], low[w])
+            elif w in on:
+                low[v] = min(low[v], index[w])
+        if low[v] == index[v]:
+            comp = []
+            while True:
+                w = stack.pop()
+                on.discard(w)
+                comp.append(w)
+                if w == v:
+                    break
+            if len(comp) > 1 or v in graph.get(v, ()):
+                comps.append(tuple(sorted(comp)))
+    for v in sorted(nodes):
+        if v not in index:
+            sc(v)
+    rep.count(len(nodes))
+    for comp in sorted(comps):
+        why = RECURSION_AUDITED.get(comp)
+        rep.check(why is not None, "recursion", " <-> ".join(comp), "cycle-is-audited",
+                  why or "a recursion cycle that is not on the audited list: if its depth follows the input (a word, a parameter list, a nesting level) a long "
+                         "enough input exhausts the stack and the process aborts", "")
+    rep.ok("recursion", "call graph", "graph-built", f"{len(nodes)} functions, {sum(len(v) for v in graph.values())} call edges, {len(comps)} cycles")
